@@ -7,6 +7,8 @@ import FP.Proofs.Cover
 import FP.Proofs.FlowCover
 import FP.Proofs.Width
 import FP.Proofs.PathCoreExample
+import FP.Proofs.C09WalkCover
+import FP.Proofs.CondWalkCoverNeeds
 /-!
 # C09 — minimum path/walk covers cover everything with fewest routes; the width equals it
 
@@ -24,9 +26,12 @@ DAG part (`kPathCover`, `MinPathCover`, `stDAG.get_width`): proven.
   The min-flow/max-antichain *strong duality* (that such a pair always exists and that the network
   simplex and the residual search find it) is not proven: the harness checks the pair on every run.
 
-Cyclic part (`kPathCoverCycles`, `MinPathCoverCycles`, `stDiGraph.get_width`): the lower-bound side
-(T5, `antichain_of_unreachable`) is proven for arbitrary digraphs; LP soundness of the walk encoding and
-the flow-to-walks direction on the condensation are stated (`…_Statement`) and tested end to end.
+Cyclic part (`kPathCoverCycles`, `MinPathCoverCycles`, `stDiGraph.get_width`): LP soundness
+(`walkcover_sound`, `walkcover_hascover`: every solution of the `kPathCoverCycles` LP decodes to `k`
+source-to-sink walks covering every edge that is not ignored, and containing the subset constraints at
+coverage fraction 1) and the lower-bound side (T5, `antichain_of_unreachable`) are proven for arbitrary
+digraphs; the flow-to-walks direction on the condensation (`condensation_flow_to_walkcover`) and its corollary
+`digraph_width_is_min_walk_cover` are proven under three extra hypotheses that are each shown necessary (`cwc_needs_*`).
 -/
 namespace FP.Props.C09
 open FP FP.Spec FP.Search
@@ -141,32 +146,167 @@ theorem dag_width_demands (inp : FlowInput) (e : Edge) (he : e ∈ inp.st.g.edge
       = if e ∈ inp.activeEdges then 1 else 0 :=
   FP.dag_width_demands inp e he
 
+/-! ### cyclic models -/
+
+/-- **cyclic counterpart of T1.** Every satisfying assignment of the `kPathCoverCycles` LP on a well-formed
+user digraph (cycles allowed), empty walks not allowed (the default), decodes (Eulerian reconstruction per
+layer, `get_solution_walks`) to exactly `k` walks such that
+
+* each decoded walk is a route of the *user's* graph (`ValidRoute`: from a node without in-edges or a declared
+  start to a node without out-edges or a declared end) and, with the synthetic endpoints that
+  `get_solution_walks` strips put back, a source-to-sink walk of the augmented graph;
+* every edge that is not ignored lies on one of the decoded walks (already on the stripped walk: an edge that
+  is not ignored is not a synthetic edge).
+
+No hypothesis beyond those of the former `walkcover_sound_Statement` is needed (subset constraints and the
+coverage fraction are arbitrary). Proof: `walkcore_sound` / `walk_routes_valid` (C01) + the cover rows. -/
+theorem walkcover_sound (inp : WalkInput) (a : Asg) (h : BaseWF inp.base)
+    (hae : inp.cfg.allowEmpty = false) (hsat : Sat a (kcovercLP inp)) :
+    (decodeWalks inp.st a inp.k).length = inp.k ∧
+    (∀ r ∈ decodeWalks inp.st a inp.k,
+      IsSTWalk inp.st (inp.st.source :: r ++ [inp.st.sink]) ∧ ValidRoute inp.base inp.starts inp.ends r) ∧
+    Covers (decodeWalks inp.st a inp.k) (inp.activeEdges false) :=
+  FP.c09w_walkcover_sound_proof inp a h hae hsat
+
+/-- **… in the vocabulary of covers** (the direction "feasible ⇒ a cover exists" of `kcover_feasible_iff`
+for digraphs with cycles): a feasible `kPathCoverCycles` LP yields `k` source-to-sink walks of the augmented
+graph covering every edge that is not ignored and containing every subset constraint completely. Two
+hypotheses concern the constraints only: the coverage fraction is at least 1 (i.e. 1: the class accepts `(0, 1]`; `Satisfies`
+speaks of complete containment) and every constraint edge is an edge of the augmented graph (anything else
+is rejected by `_check_valid_subset_constraints`). -/
+theorem walkcover_hascover (inp : WalkInput) (a : Asg) (h : BaseWF inp.base)
+    (hae : inp.cfg.allowEmpty = false) (hsat : Sat a (kcovercLP inp)) (hcov : 1 ≤ inp.cfg.coverage)
+    (hce : ∀ c ∈ inp.cfg.constraints, ∀ e ∈ c, e ∈ inp.st.g.edges) :
+    HasCover inp.st (inp.activeEdges false) inp.cfg.constraints inp.k :=
+  FP.c09w_hascover_proof inp a h hae hsat hcov hce
+
+/-- feasible ⇒ a walk cover with `k` walks exists: the hypothesis `hopt` of `cover_search_minimal` for
+`MinPathCoverCycles` with a solver that reports `optimal` only for feasible `k`-models -/
+theorem walkcover_optimal_has_cover (inp : WalkInput) (h : BaseWF inp.base)
+    (hae : inp.cfg.allowEmpty = false) (hcov : 1 ≤ inp.cfg.coverage)
+    (hce : ∀ c ∈ inp.cfg.constraints, ∀ e ∈ c, e ∈ inp.st.g.edges)
+    (hfeas : ∃ a, Sat a (kcovercLP inp)) :
+    HasCover inp.st (inp.activeEdges false) inp.cfg.constraints inp.k :=
+  hfeas.elim fun a hsat => walkcover_hascover inp a h hae hsat hcov hce
+
+/-! note: `walkcover_sound` replaces the former `def walkcover_sound_Statement`, whose first clause read
+`IsSTWalk inp.st r` for the decoded walk `r` itself; `get_solution_walks` strips the synthetic endpoints, so
+that clause holds for `source :: r ++ [sink]` (see `walkcover_sound_literal_false` below). -/
+
 /-! ### stated, not proven (cyclic models) -/
 
-/-- cyclic counterpart of T1: every satisfying assignment of the `kPathCoverCycles` LP decodes (Eulerian
-reconstruction per layer) to `k` source-to-sink walks covering every edge that is not ignored. Needs the
-soundness of the walk encoding (distance / selected-edge rows exclude disconnected circulations), which
-is not yet a theorem of this development; tested end to end by the `K5.cyc` suites. -/
-def walkcover_sound_Statement : Prop :=
-  ∀ (inp : WalkInput) (a : Asg), BaseWF inp.base → inp.cfg.allowEmpty = false → Sat a (kcovercLP inp) →
-    (∀ r ∈ decodeWalks inp.st a inp.k, IsSTWalk inp.st r) ∧
-    Covers (decodeWalks inp.st a inp.k) (inp.activeEdges false)
+/-! #### begin `condensation_flow_to_walkcover` (cyclic T6) — proven -/
 
-/-- cyclic counterpart of T6: a feasible integral flow of the min-flow instance `stDiGraph.get_width`
-builds on the expanded condensation (demands `CondInput.demands`) with source out-flow `c` yields `c`
-source-to-sink walks of the digraph covering every edge that is not ignored, provided the labelling is
-the SCC labelling and every edge lies on a source-to-sink walk. Not proven (needs: a closed walk through
-all member edges of an SCC between any entry and exit; a walk crosses between two SCCs at most once). The
-opposite inequality is T5 + `antichain_of_unreachable`, which hold for digraphs with cycles. -/
-def condensation_flow_to_walkcover_Statement : Prop :=
-  ∀ (c : CondInput) (w d : List (Edge × Int)) (f : Edge → Nat) (cost : Nat),
-    (∀ u ∈ c.g.nodes, ∀ v ∈ c.g.nodes,
-      c.comp u = c.comp v ↔ (Reach c.g.edges u v ∧ Reach c.g.edges v u)) →
-    (∀ e ∈ c.g.edges, Reach c.g.edges srcName e.1 ∧ Reach c.g.edges e.2 snkName) →
-    c.weightFunction = some w → c.demands = some d →
-    CoveringFlow c.expandedST (fun e => (lookupD d e 0).toNat) f →
-    outN c.expandedST.g f c.expandedST.source = cost →
-    HasCover ⟨c.g, srcName, snkName⟩ (c.g.edges.filter fun e => !c.ignore.contains e) [] cost
+/-- **cyclic counterpart of T6.** a feasible integral flow of the min-flow instance
+`stDiGraph.get_width` builds on the expanded condensation (demands `CondInput.demands`) with source
+out-flow `cost` yields `cost` source-to-sink walks of the digraph covering every edge that is not
+ignored, provided the labelling is the SCC labelling and every edge lies on a source-to-sink walk.
+Proof (`FP.Proofs.CondWalkCover*`): the expanded condensation is a well-formed s-t DAG, the flow
+decomposes into `cost` paths with exactly `f e` paths through every edge `e`; a path lifts to a walk
+that tours all member edges of every SCC whose edge `(k, k_expanded)` it uses and crosses between two
+SCCs along a parallel edge of its own (the demand on a condensation edge is the number of its parallel
+edges minus the ignored ones, so there are enough paths to give every parallel edge that is not
+ignored to a different one).
+
+Three hypotheses were added to the statement as first written; without any one of them it is false
+(`cwc_needs_closed`, `cwc_needs_no_isolated`, `cwc_needs_nodup` below):
+* `hclosed` — edges join nodes of the graph (always true of a networkx graph; the model's `Graph`
+  does not enforce it and `condNodes` is computed from the node list);
+* `hinc` — no isolated node (true of an `stDiGraph`: a node of the base graph without in-edges gets a
+  source edge, the synthetic nodes have an edge each, `_post_build`); an isolated node is a component
+  `source → k → sink` of the instance along which a flow may send units that no walk can realise;
+* `hnd` — `edges_to_ignore` has no duplicates: `get_width` decrements `edge_multiplicity` once per
+  *entry* of the list, a duplicate lowers the demand below the number of parallel edges left to cover.
+  The code does not enforce this (a caller passing a list with repetitions gets a too small width). -/
+theorem condensation_flow_to_walkcover (c : CondInput) (w d : List (Edge × Int)) (f : Edge → Nat)
+    (cost : Nat)
+    (hscc : ∀ u ∈ c.g.nodes, ∀ v ∈ c.g.nodes,
+      c.comp u = c.comp v ↔ (Reach c.g.edges u v ∧ Reach c.g.edges v u))
+    (hlive : ∀ e ∈ c.g.edges, Reach c.g.edges srcName e.1 ∧ Reach c.g.edges e.2 snkName)
+    (hclosed : ∀ e ∈ c.g.edges, e.1 ∈ c.g.nodes ∧ e.2 ∈ c.g.nodes)
+    (hinc : ∀ v ∈ c.g.nodes, ∃ e ∈ c.g.edges, e.1 = v ∨ e.2 = v)
+    (hnd : c.ignore.Nodup)
+    (hw : c.weightFunction = some w) (hd : c.demands = some d)
+    (hf : CoveringFlow c.expandedST (fun e => (lookupD d e 0).toNat) f)
+    (hcost : outN c.expandedST.g f c.expandedST.source = cost) :
+    HasCover ⟨c.g, srcName, snkName⟩ (c.g.edges.filter fun e => !c.ignore.contains e) [] cost :=
+  FP.cwc_condensation_flow_to_walkcover c w d f cost hscc hlive hclosed hinc hnd hw hd hf hcost
+
+/-- **`stDiGraph.get_width` = minimum walk cover, given the certificate.** a feasible integral flow of
+the instance on the expanded condensation whose cost equals the size of a set of pairwise unreachable
+edges that are not ignored: that number is the minimum number of source-to-sink walks covering every
+edge that is not ignored (upper bound: `condensation_flow_to_walkcover`; lower bound: T5 +
+`antichain_of_unreachable`). That the min-cost flow and such an antichain of equal size always exist
+(strong duality) and that the network simplex finds the former is not proven. -/
+theorem digraph_width_is_min_walk_cover (c : CondInput) (w d : List (Edge × Int)) (f : Edge → Nat)
+    (hscc : ∀ u ∈ c.g.nodes, ∀ v ∈ c.g.nodes,
+      c.comp u = c.comp v ↔ (Reach c.g.edges u v ∧ Reach c.g.edges v u))
+    (hlive : ∀ e ∈ c.g.edges, Reach c.g.edges srcName e.1 ∧ Reach c.g.edges e.2 snkName)
+    (hclosed : ∀ e ∈ c.g.edges, e.1 ∈ c.g.nodes ∧ e.2 ∈ c.g.nodes)
+    (hinc : ∀ v ∈ c.g.nodes, ∃ e ∈ c.g.edges, e.1 = v ∨ e.2 = v)
+    (hnd : c.ignore.Nodup)
+    (hw : c.weightFunction = some w) (hd : c.demands = some d)
+    (hf : CoveringFlow c.expandedST (fun e => (lookupD d e 0).toNat) f)
+    (A : List Edge) (hA : A.Nodup)
+    (hAact : ∀ e ∈ A, e ∈ c.g.edges.filter fun e => !c.ignore.contains e)
+    (hun : ∀ e1 ∈ A, ∀ e2 ∈ A, e1 ≠ e2 → ¬ Reach c.g.edges e1.2 e2.1)
+    (hcost : outN c.expandedST.g f c.expandedST.source = A.length) :
+    IsMinCover ⟨c.g, srcName, snkName⟩ (c.g.edges.filter fun e => !c.ignore.contains e) [] A.length := by
+  refine ⟨condensation_flow_to_walkcover c w d f _ hscc hlive hclosed hinc hnd hw hd hf hcost,
+    fun j hj hcov => ?_⟩
+  have := antichain_weak_duality ⟨c.g, srcName, snkName⟩ _ [] A
+    (antichain_of_unreachable ⟨c.g, srcName, snkName⟩ A hA hun) hAact j hcov
+  omega
+
+/-! ##### non-vacuity: `s → a ⇄ b`, exits `a → t`, `b → t` (augmented): exactly two walks,
+`source s a b a t sink` and `source s a b t sink` (the parallel exits need a walk each) -/
+
+/-- the augmented digraph with its SCC labelling; the source and sink edges are ignored -/
+def cyc1 : CondInput :=
+  { g := { nodes := ["s", "a", "b", "t", "source", "sink"],
+           edges := [("s", "a"), ("a", "b"), ("a", "t"), ("b", "a"), ("b", "t"), ("t", "sink"),
+                     ("source", "s")] },
+    scc := [("sink", 0), ("t", 1), ("a", 2), ("b", 2), ("s", 3), ("source", 4)],
+    ignore := [("source", "s"), ("t", "sink")] }
+
+theorem cyc1_closed : ∀ e ∈ cyc1.g.edges, e.1 ∈ cyc1.g.nodes ∧ e.2 ∈ cyc1.g.nodes := by decide
+
+set_option maxRecDepth 20000 in
+theorem cyc1_scc : ∀ u ∈ cyc1.g.nodes, ∀ v ∈ cyc1.g.nodes,
+    cyc1.comp u = cyc1.comp v ↔ (Reach cyc1.g.edges u v ∧ Reach cyc1.g.edges v u) :=
+  cwc_scc_of_reachFrom cyc1 cyc1_closed (by decide)
+
+set_option maxRecDepth 20000 in
+theorem cyc1_live :
+    ∀ e ∈ cyc1.g.edges, Reach cyc1.g.edges srcName e.1 ∧ Reach cyc1.g.edges e.2 snkName :=
+  cwc_live_of_reachFrom cyc1.g (by decide)
+
+/-- two units along `source 4 3 2 2_expanded 1 0 sink` (the demand on `2_expanded → 1` is 2) -/
+def cyc1Flow : Edge → Nat := fun _ => 2
+
+example : (cyc1.demands.getD []).lookup ("2_expanded", "1") = some 2 := by decide
+
+set_option maxRecDepth 20000 in
+theorem cyc1_flow : CoveringFlow cyc1.expandedST
+    (fun e => (lookupD (cyc1.demands.getD []) e 0).toNat) cyc1Flow := ⟨by decide, by decide⟩
+
+set_option maxRecDepth 20000 in
+/-- two walks cover `s → a`, `a → b`, `b → a`, `a → t`, `b → t` … -/
+theorem cyc1_cover : HasCover ⟨cyc1.g, srcName, snkName⟩
+    (cyc1.g.edges.filter fun e => !cyc1.ignore.contains e) [] 2 :=
+  condensation_flow_to_walkcover cyc1 (cyc1.weightFunction.getD []) (cyc1.demands.getD []) cyc1Flow 2
+    cyc1_scc cyc1_live cyc1_closed (by decide) (by decide) (by decide) (by decide) cyc1_flow (by decide)
+
+set_option maxRecDepth 20000 in
+/-- … and 2 is the minimum (antichain: the parallel exits `a → t`, `b → t`) -/
+example : IsMinCover ⟨cyc1.g, srcName, snkName⟩
+    (cyc1.g.edges.filter fun e => !cyc1.ignore.contains e) [] 2 :=
+  digraph_width_is_min_walk_cover cyc1 (cyc1.weightFunction.getD []) (cyc1.demands.getD []) cyc1Flow
+    cyc1_scc cyc1_live cyc1_closed (by decide) (by decide) (by decide) (by decide) cyc1_flow
+    [("a", "t"), ("b", "t")] (by decide) (by decide)
+    (cwc_unreachable_of_reachFrom cyc1.g cyc1_closed _ (by decide) (by decide)) (by decide)
+
+/-! #### end `condensation_flow_to_walkcover` -/
 
 /-- the lower-bound side for walks, from a condensation antichain: pairwise unreachable active edges
 (parallel edges between two SCCs are pairwise unreachable; at most one edge per SCC) bound every walk
@@ -270,5 +410,31 @@ example : (CondInput.weightFunction
   decide
 
 end Example
+
+/-! ### non-vacuity, cyclic: `s → a → t` with a self-loop at `a` that a subset constraint requires -/
+
+section WalkExample
+open FP.C09WalkExample
+
+/-- the hypotheses of `walkcover_sound` are met by a concrete assignment (walk `s, a, a, a, t`) -/
+example := walkcover_sound inpC asgC WalkCoreExample.base_wf rfl satC
+
+example : decodeWalks inpC.st asgC inpC.k = [["s", "a", "a", "a", "t"]] := decodeC
+
+example : HasCover inpC.st [("s", "a"), ("a", "a"), ("a", "t")] [[("a", "a")]] 1 :=
+  inpC_active ▸ walkcover_hascover inpC asgC WalkCoreExample.base_wf rfl satC (by decide) (by decide)
+
+/-- the literal reading of the former statement (decoded walks *themselves* start at the synthetic source) is
+false: the decoded walk of the example starts at `s` -/
+theorem walkcover_sound_literal_false :
+    ¬ ∀ (inp : WalkInput) (a : Asg), BaseWF inp.base → inp.cfg.allowEmpty = false → Sat a (kcovercLP inp) →
+      (∀ r ∈ decodeWalks inp.st a inp.k, IsSTWalk inp.st r) ∧
+      Covers (decodeWalks inp.st a inp.k) (inp.activeEdges false) := by
+  intro hall
+  have h := (hall inpC asgC WalkCoreExample.base_wf rfl satC).1
+  rw [decodeC] at h
+  exact absurd (h _ List.mem_cons_self).first (by decide)
+
+end WalkExample
 
 end FP.Props.C09
